@@ -139,6 +139,10 @@ def run_op(w, op):
     if k == "draw":
         outs = list(h.outcomes())
         return h.draw(outs[a[1] % len(outs)] if outs and a[2] % 4 else 99)
+    if k == "drawmap":
+        outs = list(h.outcomes())
+        o = outs[a[1] % len(outs)] if outs else 1
+        return h.draw({o: [-1, 0, -2, 1][a[2] % 4]})
     if k == "draw_noarg":
         saved = dyce.rng.RNG
         dyce.rng.RNG = random.Random(a[1])
@@ -231,7 +235,7 @@ def run_op(w, op):
     raise KeyError(k)
 
 
-OPS = ["bin", "scalar", "cmp", "neg", "lt", "eqhash", "acc", "zfill", "remove", "remove", "draw", "draw_noarg", "explode", "hexplode", "subst", "ostat", "stats", "roll", "alias", "alias", "hofp", "pnew", "pmatmul", "pslice", "pindex", "ph", "prwc", "pop", "foreach", "annotate", "annotate", "annotate", "rroll", "rop", "setitem", "reject", "reject"]
+OPS = ["drawmap", "drawmap", "bin", "scalar", "cmp", "neg", "lt", "eqhash", "acc", "zfill", "remove", "remove", "draw", "draw_noarg", "explode", "hexplode", "subst", "ostat", "stats", "roll", "alias", "alias", "hofp", "pnew", "pmatmul", "pslice", "pindex", "ph", "prwc", "pop", "foreach", "annotate", "annotate", "annotate", "rroll", "rop", "setitem", "reject", "reject"]
 
 
 def _run(case):
@@ -244,6 +248,11 @@ def _run(case):
                 res = run_op(w, op)
             except (ValueError, TypeError, IndexError, ZeroDivisionError, KeyError, OverflowError):
                 res = None  # a rejected call: must leave everything as it was (checked below)
+            except C.CaseTimeout:
+                raise
+            except Exception as ex:  # noqa: BLE001
+                res = None
+                w.violations.append("%s raised an undocumented %s: %s" % (op[0], type(ex).__name__, str(ex)[:80]))
             if res is not None and not isinstance(res, (int, float, bool)):
                 w.add(res)
             if len(w.model_ops) == n_before:
